@@ -118,7 +118,59 @@ def pred_spread_inplace(cfg, run, ln, clause):
     return len(set(d[:r + 1])) == 1 and len(set(d[r + 1:])) == 1
 
 
+def pred_iter_records_niter0(cfg, run, ln, clause):
+    """per-iteration records of a REJECTED attempt survive the filter only where the accepted re-do of that step finished at
+    iteration 0 (no per-iteration record of its own, so there is nothing with a higher num_restarts to supersede them)"""
+    end = run['ev'][-1]
+    if end.get('k') != 'end' or not end.get('has_stats'):
+        return False
+    ps = _post_steps(run)
+    acc = {p['t']: p for p in ps if not p['rs']}
+    rej_t = {p['t'] for p in ps if p['rs']}
+    rej_riar = {}
+    for p in ps:
+        if p['rs']:
+            rej_riar[p['t']] = max(rej_riar.get(p['t'], -1), p['riar'])
+    # surviving per-iteration records per start time, after the real filter semantics (latest num_restarts, not at recomputed times)
+    recs = [e for e in end['stats'] if e[0] == 'residual_post_iteration']
+    mark = [e for e in end['stats'] if e[0] == '_recomputed']
+    latest = {}
+    for e in mark:
+        if e[1] not in latest or e[3] >= latest[e[1]][3]:
+            latest[e[1]] = e
+    bad_times = {t for t, e in latest.items() if e[6] == 1}
+    by_t = {}
+    for e in recs:
+        by_t.setdefault(e[1], []).append(e)
+    ok_any = False
+    ok_any = False
+    rej_end = {}
+    for p in ps:
+        if p['rs']:
+            rej_end[p['t'] + p['dt']] = max(rej_end.get(p['t'] + p['dt'], -1), p['riar'])
+    for t, a in acc.items():
+        # an accepted step whose start time carries the END marker of a rejected attempt with a restart count that is not
+        # smaller loses all its records (the key-collision family, 'instead of')
+        if t in bad_times and a['k'] > 0:
+            if not (rej_end.get(t, -1) >= a['riar']):
+                return False
+            ok_any = True
+    for t, es in by_t.items():
+        if t in bad_times or t not in acc:
+            continue
+        mx = max(e[3] for e in es)
+        n = sum(1 for e in es if e[3] == mx)
+        if n != acc[t]['k']:
+            # explained: the accepted re-do has no per-iteration record (niter 0), or it carries a restart count that does not
+            # exceed the rejected attempt's (key collision after a step-size change, see C14-recomputed-key-collision)
+            if not (t in rej_t and (acc[t]['k'] == 0 or rej_riar.get(t, -1) >= acc[t]['riar'])):
+                return False
+            ok_any = True
+    return ok_any
+
+
 PREDICATES = {
+    'iter_records_niter0': pred_iter_records_niter0,
     'stats_marker_collision': pred_stats_marker_collision,
     'iter0_no_sweep': pred_iter0_no_sweep,
     'coll_update_same_pass': pred_coll_update_same_pass,
